@@ -352,3 +352,197 @@ def _ord_name(t):
 
 def _action_defs(pb):
     return None
+
+
+# ================================================================================================
+# R11.f — index arithmetic of the hand-written heap, by a linear-form / parity abstract evaluation
+#   abstract value (a, b) = a*q + b for a symbolic q >= 0; positions are instantiated as 0, 2q+1, 2q+2
+# ================================================================================================
+def _lin(t, env, F, depth=0):
+    """linear form of an integer term, bool for a comparison, None if outside the fragment"""
+    if depth > 8 or not isinstance(t, tuple):
+        return None
+    k = t[0]
+    if k == 'param':
+        return env.get(t[2])
+    if k == 'const':
+        if isinstance(t[1], bool):
+            return t[1]
+        if isinstance(t[1], int):
+            return (0, t[1])
+        return None
+    if k == 'add':
+        tot = (0, 0)
+        for x in t[1]:
+            v = _lin(x, env, F, depth + 1)
+            if not isinstance(v, tuple):
+                return None
+            tot = (tot[0] + v[0], tot[1] + v[1])
+        return tot
+    if k == 'sub':
+        a, b = _lin(t[1], env, F, depth + 1), _lin(t[2], env, F, depth + 1)
+        if not (isinstance(a, tuple) and isinstance(b, tuple)):
+            return None
+        r = (a[0] - b[0], a[1] - b[1])
+        return r if r[0] >= 0 and (r[1] >= 0) else None     # usize: must stay non-negative for all q >= 0
+    if k == 'bin':
+        a, b = _lin(t[2], env, F, depth + 1), _lin(t[3], env, F, depth + 1)
+        if not (isinstance(a, tuple) and isinstance(b, tuple)):
+            return None
+        op = t[1]
+        if op == 'Mul':
+            if a[0] == 0:
+                return (b[0] * a[1], b[1] * a[1])
+            if b[0] == 0:
+                return (a[0] * b[1], a[1] * b[1])
+            return None
+        if op == 'Shl' and b[0] == 0:
+            return (a[0] << b[1], a[1] << b[1])
+        if op in ('Div', 'Shr') and b[0] == 0:
+            d = b[1] if op == 'Div' else (1 << b[1])
+            if d > 0 and a[0] % d == 0:
+                return (a[0] // d, a[1] // d)            # exact because a[0]*q is a multiple of d
+            return None
+        if op == 'Rem' and b[0] == 0 and b[1] > 0 and a[0] % b[1] == 0:
+            return (0, a[1] % b[1])
+        if op == 'BitAnd' and b == (0, 1) and a[0] % 2 == 0:
+            return (0, a[1] % 2)
+        return None
+    if k == 'cmp':
+        a, b = _lin(t[2], env, F, depth + 1), _lin(t[3], env, F, depth + 1)
+        if not (isinstance(a, tuple) and isinstance(b, tuple)):
+            return None
+        # decide for all q >= 0
+        da, db = a[0] - b[0], a[1] - b[1]
+        def always(pred):   # pred on the difference d(q) = da*q + db, q >= 0
+            return pred
+        op = t[1]
+        lo = db                                  # value at q = 0; monotone in q
+        if da == 0:
+            vals = {'Eq': db == 0, 'Ne': db != 0, 'Lt': db < 0, 'Le': db <= 0, 'Gt': db > 0, 'Ge': db >= 0}
+            return vals[op]
+        if da > 0:   # d(q) >= db, unbounded above
+            if op in ('Gt',) and db > 0: return True
+            if op in ('Ge',) and db >= 0: return True
+            if op == 'Ne' and db > 0: return True
+            if op == 'Eq' and db > 0: return False
+            if op == 'Lt' and db >= 0: return False
+            if op == 'Le' and db > 0: return False
+            return None
+        return None
+    if k == 'call' and isinstance(t[1], str) and t[1] in F.bodies:
+        cb = F.bodies[t[1]]
+        if cb.nb <= 12 and not cb.back_edges():
+            env2 = {i: _lin(a, env, F, depth + 1) for i, a in enumerate(t[2])}
+            outs = _eval_fn(cb, env2, F, depth + 1)
+            if outs is not None and len(set(outs)) == 1:
+                return outs[0]
+        return None
+    if k == 'not':
+        v = _lin(t[1], env, F, depth + 1)
+        return (not v) if isinstance(v, bool) else None
+    return None
+
+
+def _eval_fn(body, env, F, depth=0):
+    """values returned on the paths feasible under env (params as linear forms); None if something is undecidable"""
+    outs = []
+    for (edges, blocks, end) in M.enumerate_paths(body, (0, 0)):
+        feasible = True
+        for (b, lab) in edges:
+            lit = M.edge_literal(body, b, lab)
+            if lit is None:
+                continue
+            if lit[0] in ('T', 'F'):
+                v = _lin(lit[1], env, F, depth + 1)
+                if not isinstance(v, bool):
+                    return None
+                if v != (lit[0] == 'T'):
+                    feasible = False
+                    break
+        if not feasible:
+            continue
+        rt = _path_ret(body, blocks, end)
+        if rt is None:
+            rets = body.return_blocks()
+            rt = body.origin.place({'l': 0, 'p': []}, body.term_point(rets[0])) if rets else None
+        v = _lin(rt, env, F, depth + 1)
+        if v is None:
+            return None
+        outs.append(v)
+    return outs
+
+
+def r_heap_index(ctx, rule='R11.f'):
+    F = ctx.F
+    par = ctx.body(ND, 'parent')
+    lc = ctx.body(ND, 'left_child')
+    rc = ctx.body(ND, 'right_child')
+    # children of q
+    l = _eval_fn(lc, {1: (1, 0)}, F)
+    r = _eval_fn(rc, {1: (1, 0)}, F)
+    ctx.check(l == [(2, 1)] and r == [(2, 2)], rule, 'children', lc, lc.loc(0), 'left_child(q) = 2q+1 and right_child(q) = 2q+2 for all q', 'left_child / right_child evaluate to %s / %s (expected 2q+1 / 2q+2)' % (l, r))
+    p0 = _eval_fn(par, {1: (0, 0)}, F)
+    pl = _eval_fn(par, {1: (2, 1)}, F)
+    pr = _eval_fn(par, {1: (2, 2)}, F)
+    ctx.check(p0 == [(0, 0)] and pl == [(1, 0)] and pr == [(1, 0)], rule, 'parent-inverts-children', par, par.loc(0),
+              'parent(0) = 0, parent(2q+1) = q and parent(2q+2) = q for all q >= 0 (linear-form / parity evaluation of the MIR, no panic: the subtraction stays non-negative)',
+              'parent() is not the inverse of left_child/right_child: parent(0)=%s parent(2q+1)=%s parent(2q+2)=%s (expected 0, q, q)' % (p0, pl, pr))
+    # max_child_of decision table
+    mc = ctx.body(ND, 'max_child_of')
+    left = lambda t: M.is_call(t, 'left_child') and M.is_param(t[2][1], index=1)
+    right = lambda t: M.is_call(t, 'right_child') and M.is_param(t[2][1], index=1)
+    size = lambda t: M.is_call(t, 'len') and (M.is_param(t[2][0], index=0) or _nd_field(t[2][0], 'heap'))
+    rows = []
+    for (edges, blocks, end) in M.enumerate_paths(mc, (0, 0)):
+        atoms = M.path_atoms(mc, edges)
+        if not M.consistent(atoms):
+            continue
+        rl = frozenset('<=>')
+        rr = frozenset('<=>')
+        cmpres = None
+        for a in atoms:
+            if a[0] == 'cmp':
+                if left(a[1]) and size(a[2]): rl &= a[3]
+                elif left(a[2]) and size(a[1]): rl &= frozenset({'<': '>', '>': '<', '=': '='}[x] for x in a[3])
+                elif right(a[1]) and size(a[2]): rr &= a[3]
+                elif right(a[2]) and size(a[1]): rr &= frozenset({'<': '>', '>': '<', '=': '='}[x] for x in a[3])
+            if a[0] == 'in' and M.is_call(a[1], 'compare_at_pos'):
+                ca = a[1][2]
+                if left(ca[1]) and right(ca[2]):
+                    cmpres = set(a[2]) if cmpres is None else cmpres & set(a[2])
+                else:
+                    cmpres = {'?'}
+        rt = _path_ret(mc, blocks, end)
+        out = '0' if M.is_const(rt, 0) else 'left' if left(rt) else 'right' if right(rt) else M.show(rt)[:40]
+        rows.append((rl, rr, cmpres, out))
+    bad = []
+    for (rl, rr, cmpres, out) in rows:
+        if out == '0':
+            if not rl <= frozenset('>='):
+                bad.append(('returns 0 (no child) without left >= len', sorted(rl)))
+        elif out == 'left':
+            ok = rl == frozenset('<') and ((rr <= frozenset('>=')) or (rr == frozenset('<') and cmpres == {'Greater'}))
+            if not ok:
+                bad.append(('returns left', sorted(rl), sorted(rr), cmpres))
+        elif out == 'right':
+            ok = rl == frozenset('<') and rr == frozenset('<') and cmpres is not None and 'Greater' not in cmpres and '?' not in cmpres
+            if not ok:
+                bad.append(('returns right', sorted(rl), sorted(rr), cmpres))
+        else:
+            bad.append(('returns', out))
+    # a node whose only child is the left one must return it
+    only_left = [r_ for r_ in rows if '<' in r_[0] and (r_[1] & frozenset('>=')) and r_[3] != 'left' and r_[0] == frozenset('<')]
+    if only_left:
+        bad.append(('left < len <= right does not return left', only_left[0][3]))
+    ctx.stats['paths'] += len(rows)
+    ctx.check(not bad and len(rows) >= 4, rule, 'max_child_of-table', mc, mc.loc(0),
+              'max_child_of: 0 (leaf) only when left >= len; left when right >= len; otherwise the greater of the two children (%d paths)' % len(rows),
+              'max_child_of deviates from its table: %s' % bad[:3])
+    bd = ctx.body(ND, 'bubble_down')
+    # bubble_down: kid = max_child_of(me); loop while kid > 0
+    ks = bd.calls_to('max_child_of')
+    ctx.check(len(ks) >= 1, rule, 'bubble_down-uses-max_child', bd, bd.loc(0), 'bubble_down sinks towards max_child_of(me)', 'bubble_down does not use max_child_of')
+    bu = ctx.body(ND, 'bubble_up')
+    ps = bu.calls_to('parent')
+    ctx.check(len(ps) >= 1, rule, 'bubble_up-uses-parent', bu, bu.loc(0), 'bubble_up climbs towards parent(me)', 'bubble_up does not use parent()')
